@@ -244,14 +244,39 @@ type authMitm struct {
 	n       map[string]int   // plaintext handshake messages seen per direction
 	nenc    map[string]int   // protected records seen per direction
 	msgs    map[string][]hsm // originals, per direction
+	fwd     map[string][]hsm // what was forwarded instead
 	rewrite func(a *authMitm, dir string, idx int, m hsm) []hsm
 	ccsDrop func(dir string) bool
 	encrw   func(dir string, idx int, r record) []record
 	changed bool // something was actually altered
+	plain   bool // … in a plaintext handshake message
 }
 
 func newAuthMitm() *authMitm {
-	return &authMitm{ccs: map[string]bool{}, n: map[string]int{}, nenc: map[string]int{}, msgs: map[string][]hsm{}}
+	return &authMitm{ccs: map[string]bool{}, n: map[string]int{}, nenc: map[string]int{}, msgs: map[string][]hsm{}, fwd: map[string][]hsm{}}
+}
+
+// binding reports whether the plaintext handshake messages that both ends hash before the client's Finished were
+// altered: anything client to server, and server to client everything up to and including ServerHelloDone (what
+// follows it reaches the client only after it has sent its Finished).
+func (a *authMitm) binding() bool {
+	a.mu.Lock()
+	defer a.mu.Unlock()
+	if a.plain {
+		return true
+	}
+	flat := func(ms []hsm, cut bool) []byte {
+		var b []byte
+		for _, m := range ms {
+			b = append(b, m.bytes()...)
+			if cut && m.typ == hsServerHelloDone {
+				break
+			}
+		}
+		return b
+	}
+	return !bytes.Equal(flat(a.msgs["c2s"], false), flat(a.fwd["c2s"], false)) ||
+		!bytes.Equal(flat(a.msgs["s2c"], true), flat(a.fwd["s2c"], true))
 }
 
 func (a *authMitm) find(dir string, typ byte) (hsm, bool) {
@@ -302,6 +327,7 @@ func (a *authMitm) f(dir string, _ int, r record) ([]record, bool) {
 					a.changed = true
 				}
 			}
+			a.fwd[dir] = append(a.fwd[dir], repl...)
 			for _, x := range repl {
 				out = append(out, record{recHandshake, r.vers, x.bytes()})
 			}
@@ -600,7 +626,7 @@ func evalAuth(args []string) string {
 	// … or replays the signature it made in another session in which it used the same server random
 	case "ske-replay":
 		var recorded, sr1, sr2 []byte
-		first := *st.scfg
+		first := st.scfg.Clone()
 		first.Rand = newRng(4242)
 		first.Certificates = []gmtls.Certificate{{Certificate: m.sign.Certificate, PrivateKey: hookSigner{&keyFor(2001).PublicKey, func(tbs []byte) ([]byte, error) {
 			recorded = sm2Sign(2001, tbs)
@@ -610,7 +636,7 @@ func evalAuth(args []string) string {
 			return recorded, nil
 		}}}, m.enc}
 		pre = func() string {
-			runAuth(st.ccfg, &first, nil)
+			runAuth(st.ccfg, first, nil)
 			if recorded == nil {
 				return "bad-op:nothing-captured"
 			}
@@ -644,9 +670,9 @@ func evalAuth(args []string) string {
 					recorded = sig
 					return sig, err
 				}}
-				firstC := *st.ccfg
+				firstC := st.ccfg.Clone()
 				firstC.GetClientCertificate = func(*gmtls.CertificateRequestInfo) (*gmtls.Certificate, error) { return &rec, nil }
-				pre = func() string { runAuth(&firstC, st.scfg, nil); return "" }
+				pre = func() string { runAuth(firstC, st.scfg, nil); return "" }
 			}
 			forged.PrivateKey = hookSigner{&base.PublicKey, func(tbs []byte) ([]byte, error) {
 				switch attack {
@@ -936,6 +962,11 @@ func evalAuth(args []string) string {
 	if exact {
 		return "c=" + w(res.c.done) + " s=" + w(res.s.done)
 	}
+	if am.binding() && res.s.done {
+		// every plaintext handshake message precedes the client's Finished, which the server checks against its own
+		// transcript: after any such change the server must not complete (whatever the client does afterwards)
+		return "ORACLE-FAIL:server-completed-on-altered-handshake"
+	}
 	if res.c.done && res.s.done {
 		return "both-done"
 	}
@@ -967,7 +998,7 @@ func rawFlip(a *authMitm, dir string, idx, off int, mask byte) mitmFunc {
 			l := 4 + len(m.body)
 			if d == dir && k == idx {
 				copy(body[pos:pos+l], flipAt(body[pos:pos+l], off, mask))
-				a.changed = true
+				a.changed, a.plain = true, true
 			}
 			pos += l
 		}
@@ -1038,6 +1069,8 @@ var c08ServerAttacks = []string{"s-signkey-wrong", "s-enckey-wrong", "s-untruste
 	"ske-otherrandoms", "ske-otherclientrandom", "ske-otherserverrandom", "ske-swaprandoms", "ske-othercert", "ske-nolen",
 	"ske-by-enckey", "ske-by-otherkey", "ske-empty", "ske-replay", "cke-forge"}
 
+var c08ClientAttacks = []string{"cv-replay", "cv-otherdigest", "cv-empty"}
+
 var c08Mitm = []string{"mitm-ch-version", "mitm-ch-version-low", "mitm-ch-random", "mitm-ch-sessionid", "mitm-ch-suites-other",
 	"mitm-ch-suites-reorder", "mitm-ch-suites-append", "mitm-ch-compression", "mitm-ch-compression-only", "mitm-ch-ext-strip",
 	"mitm-ch-ext-sni", "mitm-ch-ext-add", "mitm-sh-version", "mitm-sh-version-low", "mitm-sh-random", "mitm-sh-sessionid",
@@ -1073,6 +1106,14 @@ func genC08(r *rng, tier string, emit func(string)) {
 			op(su, "none", a, "absent", 0)
 			op(su, "none", a, "absent", 1)
 			op(su, "requireverify", a, "trusted", r.intn(2))
+		}
+		// the malicious client that holds the certified key
+		for _, a := range c08ClientAttacks {
+			for _, pol := range policies {
+				op(su, pol, a, "trusted", 0)
+			}
+			op(su, "requireany", a, "untrusted", 0)
+			op(su, "request", a, "absent", 0)
 		}
 		// single-field rewrites in transit
 		for _, a := range c08Mitm {
@@ -1113,6 +1154,9 @@ func genC08(r *rng, tier string, emit func(string)) {
 						op(su, pol, a, cc, r.intn(2), r.intn(256))
 					}
 					for _, a := range c08ServerAttacks {
+						op(su, pol, a, cc, r.intn(2))
+					}
+					for _, a := range c08ClientAttacks {
 						op(su, pol, a, cc, r.intn(2))
 					}
 				}
